@@ -317,7 +317,7 @@ func GenStruct(t *rapid.T) StructCase {
 			c.Mode = "doc" // encoding/xml has no untyped form
 			break
 		}
-		c.Generic = rapid.SampledFrom([]string{`{"a":"x","b":["y","z"],"c":{"d":"e"}}`, `["a",["b"],{}]`, `"just a string"`, `{"k":true,"n":null}`, `{"s":"<&>"}`}).Draw(t, "generic")
+		c.Generic = rapid.SampledFrom([]string{`{"a":"x","b":["y","z"],"c":{"d":"e"}}`, `["a",["b"],{}]`, `"just a string"`, `{"k":true,"n":null}`, `{"s":"<&>"}`, `7`, `0`, `{}`, `[]`, `""`, `true`}).Draw(t, "generic") // the shortest ones encode to 2-3 bytes
 		if c.Codec == "yaml" {
 			c.Generic = rapid.SampledFrom([]string{`{"a":"x","b":["y","z"],"c":{"d":"e"}}`, `["a",["b"]]`, `"just a string"`, `{"k":true}`}).Draw(t, "ygeneric")
 		}
